@@ -5,7 +5,7 @@ import re
 from fractions import Fraction
 
 from ..common import Check, coq_eval, harness, harness1
-from ..translate import gen_pratt, gen_doc_prec, gen_sql_strength, gen_std_sql, gen_expand
+from ..translate import gen_pratt, gen_doc_prec, gen_sql_strength, gen_std_sql, gen_expand, gen_dialect_feat
 from . import c02_gen as G
 
 TRUSTED = [
@@ -272,7 +272,8 @@ def run_queries_harness(setup, sqls):
 def run():
     ck = Check("C02", level="proof")
     tinfo = {"pratt": gen_pratt.generate(), "doc": gen_doc_prec.generate(), "strength": gen_sql_strength.generate(),
-             "stdsql": gen_std_sql.generate(), "expand": gen_expand.generate()}
+             "stdsql": gen_std_sql.generate(), "expand": gen_expand.generate(),
+             "dialect_feat": gen_dialect_feat.generate()}      # C07's translator, read-only: has_concat_function per dialect
     terr = {k: v["error"] for k, v in tinfo.items() if "error" in v}
     if terr:
         ck.coverage["translator_errors"] = terr
@@ -287,6 +288,7 @@ def run():
     t0 = time.time(); S.stream_parse(ck, model_ok); tm["parse"] = round(time.time() - t0, 1)
     t0 = time.time(); S.stream_sql_and_e2e(ck, model_ok, tm); tm["sql+e2e"] = round(time.time() - t0, 1)
     t0 = time.time(); S.stream_filter(ck, model_ok); tm["filter"] = round(time.time() - t0, 1)
+    t0 = time.time(); S.stream_fstring(ck, model_ok); tm["fstring"] = round(time.time() - t0, 1)
     t0 = time.time(); S.stream_fncall(ck, model_ok, tinfo["stdsql"] if "error" not in tinfo["stdsql"] else None); tm["fncall"] = round(time.time() - t0, 1)
     t0 = time.time(); S.stream_directed(ck); tm["directed"] = round(time.time() - t0, 1)
     ck.coverage["seconds_by_phase"] = tm
